@@ -188,6 +188,11 @@ func New(sc *Scenario) (*World, error) {
 	s := rt.New(sc.Seed)
 	s.Stick = sc.Stick
 	for _, x := range sc.Inactive {
+		if x == "kv.iter" || x == "kv.tso" {
+			// first engine call of scan workers and of the sequencer's goroutines: switching it off
+			// would leave them unknown to the scheduler (older corpus files still list them)
+			continue
+		}
 		s.Inactive[x] = true
 	}
 	s.Forced = sc.Forced
